@@ -299,3 +299,18 @@ read_to_consensus = Contract(
     assumptions=['pysam get_aligned_pairs(matches_only, with_seq) through a stub; query_qualities an arbitrary function of the position'],
 )
 UNITS.append(read_to_consensus)
+
+
+# ------------------------------------------------------------------------------ get_consensus_dictionaries without the overlap-safe window:
+# a single-end fragment (or one whose mate is missing) still votes - with all its aligned bases
+no_window = Contract(
+    PROP, FS + '::get_consensus_dictionaries', name='get_consensus_dictionaries[no window: single-end fragments vote]',
+    params={'R1': mate(1), 'R2': 'none', 'only_include_refbase': 'none', 'dove_safe': ('const', False),
+            'dove_R2_distance': ('const', 0), 'dove_R1_distance': ('const', 0)},
+    cases=[{}, {'R2': mate(2)}, {'R1': 'none', 'R2': mate(2)}],
+    setup=dove_setup,
+    ensures={'both_mates_are_read_without_a_window': 'GHOST["windows"] == [(None, None), (None, None)]'},
+    raises={},
+    assumptions=['read_to_consensus_dict recorded with its window arguments (its own unit above)'],
+)
+UNITS.append(no_window)
